@@ -17,13 +17,14 @@ var Alphabet = []string{"a", "b", "ab", "default", "zz"}
 
 // GenOpts bounds the random generator.
 type GenOpts struct {
-	MaxNodes   int  // scripted nodes
-	MaxActions int  // ≤ len(Alphabet)
-	MaxDepth   int  // nesting depth of flows (1 = flat flow)
-	Failures   bool // scripts include recoverable exec failures (retries / fallbacks)
-	Zoo        bool // payloads from the value zoo
-	MaxVisits  int
-	Batch      bool // some nodes are (sequential) batch nodes
+	MaxNodes     int  // scripted nodes
+	MaxActions   int  // ≤ len(Alphabet)
+	MaxDepth     int  // nesting depth of flows (1 = flat flow)
+	Failures     bool // scripts include recoverable exec failures (retries / fallbacks)
+	Zoo          bool // payloads from the value zoo
+	MaxVisits    int
+	Batch        bool // some nodes are (sequential) batch nodes
+	CtxAwareErrs bool // some nodes report an observed cancellation as their own failure
 }
 
 // GenNode draws a scripted node spec.
@@ -37,6 +38,12 @@ func GenNode(r *rand.Rand, o GenOpts, nActions int) NodeSpec {
 		n = 1
 	}
 	ns := NodeSpec{Kind: k, N: n, ErrKind: r.IntN(NumErrKinds)}
+	if r.IntN(6) == 0 {
+		ns.Conc = 1 + r.IntN(4)
+	}
+	if o.CtxAwareErrs && r.IntN(3) == 0 {
+		ns.ErrKind = ECtxAware
+	}
 	if KindCanFB(k) && k >= KFnOptRes {
 		ns.HasFB = r.IntN(2) == 0
 	}
@@ -60,6 +67,9 @@ func GenNode(r *rand.Rand, o GenOpts, nActions int) NodeSpec {
 		}
 		if o.Zoo && r.IntN(3) == 0 {
 			vs.Payload = 1 + r.IntN(150)
+		}
+		if k == KBatch && r.IntN(3) == 0 {
+			vs.FirstOK = 0 // a batch without items
 		}
 		ns.Visits = append(ns.Visits, vs)
 	}
